@@ -150,7 +150,7 @@ type Zone struct {
 
 type Case struct {
 	HdrRaw string // raw header block, CRLF line ends, terminated by an empty line
-	Shape  string // ground truth of the generator: address count per From field ("-": no field, "m": unparsable)
+	Shape  string // ground truth of the generator: address count per From field ("-": no field, "m": no address list, "m<n>": n addresses written but a display name the address parser refuses)
 	Author string // ground truth: the author domain when Shape == "1"
 	Zones  map[string]Zone
 	Names  []string // zone names in generation order (lower case, without the _dmarc. label)
@@ -158,6 +158,26 @@ type Case struct {
 	Seed   int64 // math/rand seed used for the pct draw
 	Rnd    int   // the value rand.Int31n(100) yields after rand.Seed(Seed)
 	PriorQ bool
+
+	// Timing of the pipeline run (`reply` ops only; Blocks == nil: one global check, the resolver
+	// answers at once).  Blocks[k] is the number of consecutive elements of Res the check of block k
+	// (0 global, 1 source, 2 recipient) reports, -1: the block has no check.  Arrive gives, per zone
+	// name, the stage at which the resolver's answer for _dmarc.<name> arrives: 0 at once, k = 1..3
+	// while the body checks of block k run, 4 after all body checks (while Apply waits); names
+	// without an entry answer at ArriveDefault.  QBlock: the block the quarantining check sits in.
+	Blocks        []int
+	Arrive        map[string]int
+	ArriveDefault int
+	QBlock        int
+	NonAtomic     bool // the message body goes through BodyNonAtomic (LMTP) instead of Body
+}
+
+// ArriveAt is the arrival stage of the answer for a zone name (compared case-insensitively).
+func (c *Case) ArriveAt(name string) int {
+	if s, ok := c.Arrive[asciiLower(name)]; ok {
+		return s
+	}
+	return c.ArriveDefault
 }
 
 // ---------------------------------------------------------------------------------------------
@@ -379,6 +399,26 @@ func (c *Case) Op(kind string, fieldVals []string, out *vh.Out) string {
 		g = append(g, s)
 		t.str(n)
 	}
+	if kind == "reply" && c.Blocks != nil {
+		b := "B"
+		for _, n := range c.Blocks {
+			if n < 0 {
+				b += " -"
+			} else {
+				b += " " + strconv.Itoa(n)
+			}
+		}
+		b += " q" + strconv.Itoa(c.QBlock)
+		if c.NonAtomic {
+			b += " lmtp"
+		} else {
+			b += " smtp"
+		}
+		g = append(g, b)
+		for _, n := range c.Names {
+			g = append(g, "A "+Tok(n)+" "+strconv.Itoa(c.ArriveAt(n)))
+		}
+	}
 	for _, r := range c.Res {
 		switch r.Kind {
 		case 'd':
@@ -436,6 +476,26 @@ func ParseOp(op string) (kind string, c *Case, err error) {
 			}
 			c.Zones[n] = z
 			c.Names = append(c.Names, n)
+		case "B":
+			for _, x := range f[1:] {
+				switch {
+				case x == "-":
+					c.Blocks = append(c.Blocks, -1)
+				case strings.HasPrefix(x, "q"):
+					c.QBlock, _ = strconv.Atoi(x[1:])
+				case x == "lmtp":
+					c.NonAtomic = true
+				case x == "smtp":
+				default:
+					n, _ := strconv.Atoi(x)
+					c.Blocks = append(c.Blocks, n)
+				}
+			}
+		case "A":
+			if c.Arrive == nil {
+				c.Arrive = map[string]int{}
+			}
+			c.Arrive[asciiLower(Untok(f[1]))], _ = strconv.Atoi(f[2])
 		case "R":
 			switch f[1] {
 			case "d":
@@ -762,13 +822,85 @@ func related(r *vh.Rng, from string, allowEmpty bool) string {
 
 var keyForms = []string{"From", "from", "FROM", "fRoM"}
 
-// genHeader builds a header block holding one From field per entry of counts, in that order
-// (n >= 1: n addresses, the first address of the first field carries the author domain; 0: empty
-// value; -1: a value that is not an address list).  The returned shape is the generator's ground
-// truth.
-func genHeader(r *vh.Rng, author string, counts []int) (raw string, shape string) {
+// Display names net/mail refuses (the whole field then fails to parse): encoded-words in charsets
+// net/mail has no decoder for, unquoted specials, unterminated comments and quoted strings, bytes
+// that are not UTF-8.  Candidates the installed net/mail accepts after all are dropped at start-up
+// (BadNames), so that the list follows the library.
+var badNameCandidates = []string{
+	"=?iso-2022-jp?B?GyRCRnxLXBsoQg==?=",
+	"=?ISO-2022-JP?b?GyRCRnxLXBsoQg==?=",
+	"=?gb2312?B?1tC5+g==?=",
+	"=?koi8-r?Q?=F0=D2=C9=D7=C5=D4?=",
+	"=?windows-1252?Q?Caf=E9?=",
+	"=?shift_jis?B?k/qWew==?=",
+	"=?utf-8?q?Accounts?= =?euc-kr?B?x9GxuQ==?=",
+	"=?iso-2022-jp?B?" + strings.Repeat("GyRCRnxLXBsoQg", 12) + "==?=",
+	"Dr. Who [CEO]",
+	"[x]",
+	"Support (billing",
+	"a:b",
+	"sales; marketing",
+	"Bob \\ Ross",
+	"Name \"unterminated",
+	"J@ne Doe",
+	"Company, Inc.",
+	"a<b",
+	"a>b",
+	"caf\xe9",
+	"ctl\x01x",
+	strings.Repeat("x", 400) + " [" + strings.Repeat("y", 400) + "]",
+}
+
+var badNames []string
+
+// BadNames: the candidates net/mail refuses in front of an angle-addr.
+func BadNames() []string {
+	if badNames == nil {
+		for _, n := range badNameCandidates {
+			if _, err := mail.ParseAddressList(n + " <user@example.com>"); err != nil {
+				badNames = append(badNames, n)
+			}
+		}
+	}
+	return badNames
+}
+
+// FieldSpec says what one From field of a generated header holds: N >= 1 addresses, 0: an empty
+// value, -1: a value that is not an address list.  Bad: one (sometimes every) address carries a
+// display name net/mail refuses.
+type FieldSpec struct {
+	N   int
+	Bad bool
+}
+
+func plain(counts ...int) []FieldSpec {
+	var fs []FieldSpec
+	for _, n := range counts {
+		fs = append(fs, FieldSpec{N: n})
+	}
+	return fs
+}
+
+// angle-addr forms a display name can stand in front of
+var angleForms = []func(l, d string) string{
+	func(l, d string) string { return "<" + l + "@" + d + ">" },
+	func(l, d string) string { return " <" + l + "@" + d + ">" },
+	func(l, d string) string { return "\r\n <" + l + "@" + d + ">" },
+}
+
+// genHeader builds a header block holding one From field per entry of fields, in that order.  The
+// address at position `focus` of the first field with addresses (-1: the last one) carries the
+// domain `author` - the domain the zones and identifiers of the case are drawn for; in a field
+// with one address that is the author domain of the header.  The returned shape is the
+// generator's ground truth: the number of addresses per field, "m" for a field that is no address
+// list by construction, "m<n>" for n addresses of which at least one stands behind a display name
+// net/mail refuses (the property's "author addresses" are what the address parser makes of the
+// field: none).
+func genHeader(r *vh.Rng, author string, fields []FieldSpec, focus int) (raw string, shape string) {
 	var froms, sh []string
-	for fi, n := range counts {
+	focusDone := false
+	for _, fs := range fields {
+		n := fs.N
 		var v string
 		switch {
 		case n < 0:
@@ -778,26 +910,72 @@ func genHeader(r *vh.Rng, author string, counts []int) (raw string, shape string
 			v = r.Pick("", " ", "\t")
 			sh = append(sh, "0")
 		default:
-			var as []string
-			if n > 1 && r.Chance(15) {
-				// a group holding all n addresses
-				var m []string
-				for k := 0; k < n; k++ {
-					m = append(m, fmt.Sprintf("u%d@%s", k, author))
-				}
-				as = []string{"Team: " + strings.Join(m, ", ") + ";"}
-			} else {
-				for i := 0; i < n; i++ {
-					d := author
-					if (fi > 0 || i > 0) && r.Bool() {
-						d = Doms[r.Intn(len(Doms)-1)].Name
-					}
-					f := addrForms[r.Intn(len(addrForms))]
-					as = append(as, f.render(r.Pick("user", "alice", "first.last"), d))
+			fpos := -2
+			if !focusDone {
+				focusDone = true
+				fpos = focus
+				if fpos < 0 || fpos >= n {
+					fpos = n - 1
 				}
 			}
-			v = strings.Join(as, ", ")
-			sh = append(sh, strconv.Itoa(n))
+			for {
+				var as []string
+				if n > 1 && !fs.Bad && r.Chance(15) {
+					// a group holding all n addresses
+					var m []string
+					for k := 0; k < n; k++ {
+						m = append(m, fmt.Sprintf("u%d@%s", k, author))
+					}
+					as = []string{"Team: " + strings.Join(m, ", ") + ";"}
+				} else {
+					badAt := -1
+					if fs.Bad {
+						badAt = r.Intn(n)
+					}
+					allBad := fs.Bad && r.Chance(15)
+					for i := 0; i < n; i++ {
+						d := author
+						if i != fpos {
+							pct := 65
+							if fpos == -2 {
+								pct = 50
+							}
+							if r.Chance(pct) {
+								d = Doms[r.Intn(len(Doms)-1)].Name
+							}
+						}
+						local := r.Pick("user", "alice", "first.last")
+						if i == badAt || allBad {
+							bn := BadNames()
+							as = append(as, bn[r.Intn(len(bn))]+angleForms[r.Intn(len(angleForms))](local, d))
+							continue
+						}
+						f := addrForms[r.Intn(len(addrForms))]
+						as = append(as, f.render(local, d))
+					}
+					if fs.Bad && r.Chance(12) {
+						// a group around the addresses
+						as = []string{"Team: " + strings.Join(as, ", ") + ";"}
+					}
+				}
+				if !fs.Bad {
+					v = strings.Join(as, ", ")
+					sh = append(sh, strconv.Itoa(n))
+					break
+				}
+				v = strings.Join(as, r.Pick(", ", ", ", ",", ",\r\n "))
+				// what the address parser makes of it decides; a value it reads as a list of another
+				// length than the one built here has no ground truth and is drawn again
+				l, err := mail.ParseAddressList(strings.ReplaceAll(v, "\r\n", ""))
+				if err != nil {
+					sh = append(sh, "m"+strconv.Itoa(n)) // n addresses were written, the parser reads none
+					break
+				}
+				if len(l) == n {
+					sh = append(sh, strconv.Itoa(n))
+					break
+				}
+			}
 		}
 		key := keyForms[r.Intn(len(keyForms))]
 		line := key + ": " + v
@@ -819,7 +997,7 @@ func genHeader(r *vh.Rng, author string, counts []int) (raw string, shape string
 		}
 	}
 	shape = strings.Join(sh, ",")
-	if len(counts) == 0 {
+	if len(fields) == 0 {
 		shape = "-"
 	}
 	return strings.Join(lines, "\r\n") + "\r\n\r\n", shape
@@ -941,33 +1119,51 @@ func Random(r *vh.Rng) *Case {
 		from = Doms[r.Intn(len(Doms)-1)].Name
 	}
 	// header shape
-	var counts []int
+	var fields []FieldSpec
 	switch k := r.Intn(100); {
-	case k < 80:
-		counts = []int{1}
-	case k < 83:
-		counts = nil
+	case k < 71:
+		fields = plain(1)
+	case k < 74:
+		fields = nil
+	case k < 78:
+		fields = plain(2 + r.Intn(2))
+	case k < 81:
+		fields = plain(1, 1)
+	case k < 84:
+		fields = plain(0, 1)
+	case k < 85:
+		fields = plain(1, 0)
+	case k < 86:
+		fields = plain(0)
 	case k < 87:
-		counts = []int{2 + r.Intn(2)}
+		fields = plain(0, 0, 1)
+	case k < 89:
+		fields = plain(-1)
 	case k < 90:
-		counts = []int{1, 1}
-	case k < 93:
-		counts = []int{0, 1}
+		fields = plain(-1, 1)
+	case k < 91:
+		fields = plain(1, 1, 1)
 	case k < 94:
-		counts = []int{1, 0}
-	case k < 95:
-		counts = []int{0}
-	case k < 96:
-		counts = []int{0, 0, 1}
-	case k < 98:
-		counts = []int{-1}
+		// one address behind a display name the address parser refuses
+		fields = []FieldSpec{{N: 1, Bad: true}}
 	case k < 99:
-		counts = []int{-1, 1}
+		// several addresses, at least one of them behind such a display name
+		fields = []FieldSpec{{N: 2 + r.Intn(3), Bad: true}}
 	default:
-		counts = []int{1, 1, 1}
+		fields = []FieldSpec{{N: 1 + r.Intn(2), Bad: true}, {N: 1}}
+	}
+	// which address of a field with several carries the domain the case is built around
+	focus := 0
+	switch k := r.Intn(100); {
+	case k < 40:
+		focus = 0
+	case k < 80:
+		focus = -1
+	default:
+		focus = r.Intn(4)
 	}
 	hdrFrom := from
-	c.HdrRaw, c.Shape = genHeader(r, hdrFrom, counts)
+	c.HdrRaw, c.Shape = genHeader(r, hdrFrom, fields, focus)
 	c.Author = hdrFrom
 	// zones
 	org, _ := KnownOrg(from)
@@ -1052,6 +1248,64 @@ func Random(r *vh.Rng) *Case {
 	return c
 }
 
+// AddTiming draws the timing of a pipeline run for the case: which of the three check blocks
+// (global, source, recipient) exist and how the authentication results are spread over them (in
+// order), and for every name the resolver may be asked the stage at which its answer arrives.
+func AddTiming(r *vh.Rng, c *Case) {
+	exists := []bool{!r.Chance(10), r.Chance(60), r.Chance(60)}
+	if !exists[0] && !exists[1] && !exists[2] {
+		exists[r.Intn(3)] = true
+	}
+	var idx []int
+	for k, e := range exists {
+		if e {
+			idx = append(idx, k)
+		}
+	}
+	c.Blocks = []int{-1, -1, -1}
+	for _, k := range idx {
+		c.Blocks[k] = 0
+	}
+	// every result goes to one of the existing blocks, order kept
+	cur := 0
+	for range c.Res {
+		for cur < len(idx)-1 && r.Chance(35) {
+			cur++
+		}
+		c.Blocks[idx[cur]]++
+	}
+	if r.Chance(25) {
+		// everything is reported by the last block
+		for _, k := range idx {
+			c.Blocks[k] = 0
+		}
+		c.Blocks[idx[len(idx)-1]] = len(c.Res)
+	}
+	c.QBlock = idx[r.Intn(len(idx))]
+	c.NonAtomic = r.Chance(30)
+	c.Arrive = map[string]int{}
+	stage := func() int {
+		switch k := r.Intn(100); {
+		case k < 20:
+			return 0
+		case k < 40:
+			return 1
+		case k < 60:
+			return 2
+		case k < 80:
+			return 3
+		default:
+			return 4
+		}
+	}
+	c.ArriveDefault = stage()
+	for _, n := range c.Names {
+		if r.Chance(70) {
+			c.Arrive[n] = stage()
+		}
+	}
+}
+
 // ---------------------------------------------------------------------------------------------
 // Corpus: hand-made cases that run first in every tier (the witnesses of the defects this check
 // found on the unchanged tree, and one plain case per clause of the property).
@@ -1116,7 +1370,43 @@ func Corpus() []*Case {
 			dk("pass", "sub.example.com"), spf("pass", "sub.example.com", "mx.example.com")),
 		mk(one("co.uk"), "1", "co.uk", map[string]Zone{"co.uk": txt("v=DMARC1; p=reject")},
 			dk("pass", "example.co.uk"), spf("pass", "", "co.uk")),
+		// several addresses, one behind a display name the address parser refuses (encoded-word in a
+		// charset it has no decoder for; unquoted specials): no author, no pass - whichever address an
+		// authenticated identifier is aligned with
+		mk("From: =?iso-2022-jp?B?GyRCRnxLXBsoQg==?= <ceo@example.com>, <x@evil.com>\r\nSubject: x\r\n\r\n", "m2", "",
+			map[string]Zone{"example.com": txt("v=DMARC1; p=reject"), "evil.com": txt("v=DMARC1; p=none")},
+			dk("pass", "evil.com"), spf("pass", "mail.evil.com", "mail.evil.com")),
+		mk("From: <x@evil.com>, Dr. Who [CEO] <ceo@example.com>\r\nSubject: x\r\n\r\n", "m2", "",
+			map[string]Zone{"example.com": txt("v=DMARC1; p=reject"), "evil.com": txt("v=DMARC1; p=none")},
+			dk("pass", "evil.com"), spf("pass", "mail.evil.com", "mail.evil.com")),
+		mk("From: Team: =?koi8-r?Q?=F0=D2=C9=D7=C5=D4?= <ceo@example.com>, x@evil.com;\r\nSubject: x\r\n\r\n", "m2", "",
+			map[string]Zone{"example.com": txt("v=DMARC1; p=reject"), "evil.com": txt("v=DMARC1; p=none")},
+			dk("pass", "example.com"), spf("pass", "evil.com", "mail.evil.com")),
 	}
+}
+
+// TimedCorpus: pipeline runs with a timing (reply ops only).  A message failing p=reject whose
+// policy answer arrives while the second / third block's body checks run, or after all of them.
+func TimedCorpus() []*Case {
+	dk := func(v, d string) Res { return Res{Kind: 'd', Val: v, Dom: d} }
+	spf := func(v, from, helo string) Res { return Res{Kind: 's', Val: v, From: from, Helo: helo} }
+	one := func(d string) string { return "From: Some Body <user@" + d + ">\r\nSubject: x\r\n\r\n" }
+	var out []*Case
+	for _, blocks := range [][]int{{2, -1, -1}, {1, 1, -1}, {0, 1, 1}, {-1, -1, 2}, {1, 0, 1}} {
+		for _, stage := range []int{2, 3, 4, 1, 0} {
+			c := mk(one("example.com"), "1", "example.com", map[string]Zone{"example.com": txt("v=DMARC1; p=reject")},
+				dk("fail", "example.com"), spf("fail", "example.org", "mx.example.org"))
+			c.Blocks, c.ArriveDefault = blocks, stage
+			out = append(out, c)
+			// organizational-domain fallback: two lookups, the second one late
+			c = mk(one("sub.example.com"), "1", "sub.example.com", map[string]Zone{"sub.example.com": {Kind: "nx"}, "example.com": txt("v=DMARC1; p=quarantine; sp=reject")},
+				dk("none", ""), spf("softfail", "example.org", "mx.example.org"))
+			c.Blocks, c.Arrive, c.ArriveDefault = blocks, map[string]int{"example.com": stage}, 0
+			c.NonAtomic = stage%2 == 1
+			out = append(out, c)
+		}
+	}
+	return out
 }
 
 // ---------------------------------------------------------------------------------------------
